@@ -195,6 +195,14 @@ impl Variables {
         }
     }
 
+    #[cfg(feature = "verif")]
+    pub fn verif_entries(&self) -> Vec<(String, Variant)> {
+        self.map
+            .entries()
+            .map(|(name, info)| (format!("{:?}", name), info.value.clone()))
+            .collect()
+    }
+
     pub fn get_arg_path(&self, index: usize) -> Option<&Path> {
         self.map
             .get_by_index(index)
